@@ -316,6 +316,25 @@ theorem middleware_exactly_one (w : Nat) (k : κ) (r : Repo κ) (calls : List (K
           have := ih _ habs' (hex' hne)
           simp [mwCalls, middleware, dIsDup, isDup, hq, mwDecide, hne, this]
 
+/-- **a delivery that is rejected with an error has not used up the key**: whenever `Deduplicator.IsDuplicate` answers with
+    an error the repository is unchanged, so the redelivery of that message is judged as if the failed one had never come
+    (in the model the only error source is the key factory; the map repository itself returns no error and does not look
+    at its context – structural fact `isdup_ctx_parameter_unused` and the generated tie, whose `ret` statements must
+    return a `nil` error) -/
+theorem error_does_not_consume_key (w : Nat) (r : Repo κ) (kr : KeyRes κ) (now : Nat)
+    (h : (dIsDup w r kr now).2 = .err) : (dIsDup w r kr now).1 = r := by
+  cases kr with
+  | err => rfl
+  | key k => cases hp : present r k <;> simp [dIsDup, isDup, hp] at h
+
+/-- … and the middleware then neither invokes the handler nor remembers anything -/
+theorem middleware_error_is_clean {ρ : Type} (w : Nat) (r : Repo κ) (kr : KeyRes κ) (now : Nat) (h : ρ)
+    (he : (middleware w r kr now h).2.1 = .keyErr) :
+    (middleware w r kr now h).1 = r ∧ (middleware w r kr now h).2.2 = 0 := by
+  cases kr with
+  | err => simp [middleware, dIsDup, mwDecide]
+  | key k => cases hp : present r k <;> simp [middleware, dIsDup, isDup, hp, mwDecide] at he
+
 /-! ## publisher decorator -/
 
 /-- **the decorator filters and acks** (all messages of the batch have keys): the repository goes through exactly the
